@@ -65,8 +65,14 @@ def run_case(job, keep=None):
         load_emis_config(cfgd)
         fuel = fuel_obj(fuelname)
         # (InventoryGen.tla EdbForms: one form of the engine's nvPM data per flight)
-        pm = model(case['flows'], case['apu'], aclass, case.get('modeorder', 'idle_first'), case.get('edb', 'reported'))
+        pm = model(case['flows'], case['apu'], aclass, case.get('modeorder', 'idle_first'), case.get('edb', 'reported'), case.get('ltoform', 'frozen'))
         traj = synthetic_traj(case['burn'], case['nc'], case['nd'], carrier=case.get('carrier', 'container'), profile=case.get('profile', 'high'))
+        if case.get('ltoform') == 'mutable':
+            # (the model has served a flight before this one: the same flight, so that the case is self-contained)
+            try:
+                compute_emissions(pm, fuel, traj)
+            except Exception:
+                pass
         try:
             em = compute_emissions(pm, fuel, traj)
         except Exception as e:
